@@ -111,6 +111,7 @@ def gen_timed(rng, idx):
         seq += 1
         events.append((rng.range(tmin, tmax + 10), seq, 'applydiff %d %d 1 %d' % (j, i, rng.choice([0, 1, 2 + 2 * rng.below(64)]))))
     events.sort()
+    validate_timed(events, ops, nreg)
     lines = ['case %d orswot 2' % idx, 'tag timed']
     for (_, _, l) in events:
         if l.startswith('purge'):
@@ -122,6 +123,25 @@ def gen_timed(rng, idx):
         lines += ['dump %d' % r, 'purge %d' % r, 'tag purged', 'dump %d' % r, 'lwwlive %d' % r]
     lines += ['mode 0', 'end']
     return lines, ops
+
+
+def validate_timed(events, ops, nreg):
+    """The hypotheses of C08b.ValidRun, checked on the generated schedule: each delivery is admissible at its time, and at
+    every event every operation at least D old has already been delivered to every replica."""
+    delivered = {}
+    for (tau, _, l) in events:
+        for (kd, k, st) in ops:
+            if dts(st) + DELAY <= tau:
+                for r in range(nreg):
+                    assert (r, st) in delivered, 'untimely schedule: %d not yet at replica %d at time %d' % (st, r, tau)
+        t = l.split()
+        if t[0] in ('ins', 'del'):
+            st = int(t[4])
+            assert dts(st) <= tau + SKEW and tau < dts(st) + DELAY, 'inadmissible delivery %s at %d' % (l, tau)
+            delivered[(int(t[1]), st)] = True
+    for (kd, k, st) in ops:
+        for r in range(nreg):
+            assert (r, st) in delivered
 
 
 def py_lww_live(ops):
